@@ -82,9 +82,9 @@ let field_of_bool (b : bool) : Stdlib.String.t = if b then "1" else "0"
 
 let err_name (e : Model.errkind) : Stdlib.String.t =
   match e with
-  | Model.Unsortable -> "Model.Unsortable" | Model.Crash -> "Model.Crash" | Model.NotFound -> "Model.NotFound"
-  | Model.Refused -> "Model.Refused" | Model.BadTable -> "Model.BadTable" | Model.OutOfFuel -> "Model.OutOfFuel"
-  | Model.Undefined -> "Model.Undefined"
+  | Model.Unsortable -> "Unsortable" | Model.Crash -> "Crash" | Model.NotFound -> "NotFound"
+  | Model.Refused -> "Refused" | Model.BadTable -> "BadTable" | Model.OutOfFuel -> "OutOfFuel"
+  | Model.Undefined -> "Undefined"
 
 let fields (line : Stdlib.String.t) : Stdlib.String.t array = Array.of_list (Stdlib.String.split_on_char '\t' line)
 
